@@ -202,9 +202,12 @@ func runC04(args []string) int {
 		}
 	}
 	var sb strings.Builder
-	sb.WriteString("From Coq Require Import ZArith List Bool.\nFrom GnarkV Require Import Frontend.Spec Frontend.C04Cases.\nImport ListNotations.\n")
+	sb.WriteString("From Coq Require Import ZArith List Bool.\nFrom GnarkV Require Import Frontend.Spec Frontend.C04Cases Frontend.SemCases.\nImport ListNotations.\n")
 	sb.WriteString(fmt.Sprintf("Definition cases : list c04case := %s.\n", coqlistNL(coqCases)))
 	sb.WriteString("Definition mism_c04 := Eval vm_compute in c04_mismatches 0 cases.\nPrint mism_c04.\n")
+	// the field-generic statement of the documented meaning (BuilderR1CSProps.sem, the one compile_sound is about)
+	// must agree with Spec.v on the value trace of every program inside the modelled core
+	sb.WriteString("Definition mism_c04_sem := Eval vm_compute in sem_mismatches 0 cases.\nPrint mism_c04_sem.\n")
 	writeFile(o.Out, "cases_C04.v", sb.String())
 	rep.CoqCases = len(coqCases)
 	rep.Extra["case_index"] = caseIdx
